@@ -19,7 +19,7 @@ RULE = ("every (collection type, switch set, option) terminal state of the regis
         "sub-object or optional edge (switch set non-empty)")
 TRUSTED_BASE = ["checks/aoef_common.py: build_world (objects from TLC's description), gen_value (typed scalars from model_fields), "
                 "diff (generic field walker, terms by label), analyse_doc (document definitions/references)"]
-ASSUMPTIONS = ["terms are simple-label terms; feature labels distinct within a list; finite floats; no object repeated within one list",
+ASSUMPTIONS = ["terms are simple-label terms; feature labels distinct within a list; finite floats",
                "acyclic sequence parents"]
 
 EVENT_TRACES = ("T_AoefTrace",)
@@ -66,6 +66,32 @@ def extra_observations(work, tier, seed):
         # the executions of the repository's own tests/test_io, recorded by the hooks and walked by the registry machine;
         # advisory (their documents need not come from save), so their rejects are reported as drift, never as violations
         yield from ac.repo_test_traces(work)
+
+_ROOT_KIND = {"recordings": "recording", "clip_annotations": "clip_ann", "clip_predictions": "clip_pred"}
+
+
+def finding_key(o, clause):
+    """DefinedOnce on a collection that lists one member twice, where the identifiers defined twice are exactly those members:
+    the open finding (the member list of the document is its definition list, so the member is defined once per mention)"""
+    c = o["in"]
+    if clause == "DefinedOnce":
+        twice = {}
+        for f, k in _ROOT_KIND.items():
+            lst = (c.get("roots") or {}).get(f) or []
+            for x in set(lst):
+                if lst.count(x) > 1:
+                    twice.setdefault(k, {})[x] = lst.count(x)
+        if twice:
+            ok = True
+            for cy in o["out"].get("cycles", []):
+                defs = (cy.get("doc") or {}).get("defs") or {}
+                for k, ids in defs.items():
+                    dup = {x: ids.count(x) for x in set(ids) if ids.count(x) > 1}
+                    ok = ok and dup == twice.get(k, {})
+            if ok:
+                return "DefinedOnce/collection-lists-member-twice"
+    return clause
+
 
 def nontrivial(o):
     return len(o["in"].get("sw", [])) > 0
